@@ -116,7 +116,7 @@ def check_tree(part, mirror, data, cu, lb, ctx):
         if len(pts) <= cu:
             raise Violation("kdq-split-small-node", f"node {i} holds {len(pts)} <= count_ubound={cu} points but is split", part="build")
         lo, hi = pts[:, n.axis].min(), pts[:, n.axis].max()
-        if float(n.midpoint_at_axis) != float((lo + hi) / 2):
+        if abs(float(n.midpoint_at_axis) - float((lo + hi) / 2)) > 1e-12 * (1 + abs(lo) + abs(hi)):
             raise Violation(
                 "kdq-midpoint", f"node {i}: midpoint {n.midpoint_at_axis} but its points span [{lo}, {hi}] on axis {n.axis}", part="build"
             )
@@ -297,6 +297,8 @@ def points(draw, d, flavour, nmin, nmax, wide=False):
         cell = st.integers(-rng, rng).map(lambda k: k / 8)
     elif flavour == "int":
         cell = st.integers(-3 if wide else 0, 15 if wide else 12).map(float)
+    elif flavour == "decimal":  # one-decimal values: not exactly representable, boundary points are rounding-sensitive
+        cell = st.integers(-12 if wide else 0, 42 if wide else 30).map(lambda k: k / 10)
     elif flavour == "dup":
         cell = st.sampled_from([0.0, 1.0, 2.0, 0.5] + ([-1.0, 3.0] if wide else []))
     else:  # big
@@ -309,7 +311,7 @@ def strat_partitioner(tier):
     @st.composite
     def s(draw):
         d = draw(st.integers(1, 4))
-        flavour = draw(st.sampled_from(["cont", "cont", "int", "dup", "big"]))
+        flavour = draw(st.sampled_from(["cont", "cont", "int", "dup", "big", "decimal", "decimal"]))
         data = draw(points(d, flavour, 1, 6)) if draw(st.integers(0, 7)) == 0 else draw(points(d, flavour, 16, 120))
         if d > 1 and draw(st.integers(0, 5)) == 0:
             j = draw(st.integers(0, d - 1))
@@ -346,7 +348,7 @@ PROPERTY = {
     "id": "C08",
     "level": "exploration",
     "rule": (
-        "Hypothesis point sets (1-120 rows x 1-4 columns; grids: eighths in +-8, small integers, heavily duplicated values, multiples of 16, "
+        "Hypothesis point sets (1-120 rows x 1-4 columns; grids: eighths in +-8, small integers, heavily duplicated values, multiples of 16, one-decimal values (rounding-sensitive split boundaries), "
         "optional constant column) x count_ubound 1..20 x cutpoint_proportion_lbound {2e-10,.01,.25,1}, followed by a generated sequence "
         "of up to 12 operations (fill under 4 ids with/without reset incl. points outside the build range and empty fills, re-fill of the "
         "build data, reset, kl_distance, to_plotly_dataframe with/without second id and max_depth). After build the public tree is "
